@@ -10,8 +10,8 @@ parse(text) -> Ref(tree, tokens, comments, semis) or raises RefSyntaxError.
 """
 import unicodedata
 
-WS_EXTRA = u'\t\x0b\x0c \xa0﻿'
-LT = u'\n\r  '
+WS_EXTRA = u'\t\x0b\x0c \xa0\ufeff'
+LT = u'\n\r\u2028\u2029'
 
 KEYWORDS = frozenset('''break case catch continue debugger default delete do else finally for function if in
 instanceof new return switch this throw try typeof var void while with'''.split())
@@ -54,7 +54,7 @@ def is_id_start(ch):
 def is_id_part(ch):
     if is_id_start(ch):
         return True
-    if ch in u'‌‍':
+    if ch in u'\u200c\u200d':
         return True
     return unicodedata.category(ch) in ('Mn', 'Mc', 'Nd', 'Pc')
 
